@@ -379,6 +379,21 @@ C17_PayAddrChange(x, cfg) ==
     /\ \A i \in 1..Len(x.post.pay) : LET p == x.post.pay[i] IN
           (~HasPay(x.pre, p.did) /\ IsKeyDid(cfg, p.did)) => Kind(x) = "PayAddr" /\ Ok(x) /\ x.ev.creator = p.a /\ x.ev.did = p.did
 
+\* C20: the super role is held only while its requirements hold (status loss by offline detection is not a listed trigger)
+SharesOf(s, d, v) == LET r == SelectSeq(s.delegs, LAMBDA x : x.d = d /\ x.v = v) IN IF r = <<>> THEN 0 ELSE r[1].shares
+SuperOk(s, cfg, n) ==
+    /\ HasPledge(s, n.a) /\ PledgeOf(s, n.a).cap >= cfg.vstorThreshold
+    /\ n.val # "" /\ Has(s.vals, "v", n.val)
+    /\ SharesOf(s, n.a, n.val) * cfg.shareDen >= Get(s.vals, "v", n.val).shares * cfg.shareNum
+    /\ SharesOf(s, n.a, n.val) > 0
+C20_SuperImpliesRequirements(s, cfg) ==
+    \A i \in 1..Len(s.nodes) : s.nodes[i].role = 1 => SuperOk(s, cfg, s.nodes[i])
+C20_PromotionNeedsStatus(x, cfg) ==
+    \A i \in 1..Len(x.post.nodes) : LET n == x.post.nodes[i] IN
+        (n.role = 1 /\ (~HasNode(x.pre, n.a) \/ NodeOf(x.pre, n.a).role = 0)) => HasBits(n.status, SuperReq) /\ SuperOk(x.post, cfg, n)
+\* C03: no process-global residue at the end of a transaction or block (only observable with the verif hooks)
+C03_NoResidue(s) == s.vol \in {"", "0"}
+
 \* C02: blocks never panic/hang; transactions never hang
 C02_NoHalt(x) == x.out.result \notin {"PANIC", "HANG"}
 =============================================================================
